@@ -1519,6 +1519,8 @@ impl Core {
 			log::info!("All memtables flushed successfully on shutdown");
 		}
 
+		#[cfg(feature = "verif")]
+		crate::verif::point("close.after_flush");
 		// Step 4: Close the WAL to ensure all data is flushed
 		// This is safe now because all background tasks that could write to WAL are
 		// stopped NOTE: WAL must be closed BEFORE cleanup, otherwise cleanup may
